@@ -5,6 +5,11 @@ IDS = ["C%02d" % i for i in range(1, 21)]
 
 # id -> (engine, category, technique, text, note, design_ref)
 CHECKS = {
+ "C19": ("E1-enumeration+CLI", "exploration",
+   "bounded-exhaustive enumeration of the pure planner functions against set-comprehension / DP references; real find(1) and CLI --dry-run bindings",
+   "glob_match on every (pattern, text) pair of length <= 4 (quick) / <= 5 (thorough, 87 M pairs) over {a,b,*,?,.,/} vs a DP wildcard matcher; is_excluded on every pattern of length <= 3 (with trailing-slash variants) x every 1..3-component path over 18 names containing *, ?, .; build_plan on all 4096 (src, dst) metadata maps over 3 paths x 43 exclude lists x delete on/off; needs_transfer on boundary values; parse_remote_meta_output on rendered listings (tabs, newlines, dots, UTF-8; sizes to u64::MAX; fractional/integral timestamps) and on the output of the real find -printf over files created on tmpfs; `copia sync -r --dry-run` prints exactly the reference plan for the metadata states (sub-sampled in quick, all 8192 in thorough).",
+   "Length/alphabet bounds as stated; negative timestamps and non-UTF-8 names outside the domain.",
+   "DESIGN.md §3 C19"),
  "C18": ("E1-enumeration+Lean-eval+CLI", "exploration",
    "complete enumeration of the quotient (Fingerprint+absent)^3 and of all small path maps against a table written from the property text; repository's Lean model evaluated on 125 triples; bisync --dry-run on 80 single-path states",
    "All 343 (a, b, base) triples over absent + 3 digests x {File, Symlink} under 17 digest labellings (one-byte differences, extremes, permutations, seeded) against the documented table, mirror symmetry and no-delete-without-base; reconcile() over every (a, b, base) map triple on three 3-path universes (4-path in thorough) whose byte order and component order disagree, both trust settings; the repo's Lean `reconcile` is evaluated (#eval, not proved) on {none, some 0..3}^3 and must agree; `copia bisync --dry-run` must print the table's action for each single-path state with/without archive.",
